@@ -29,7 +29,7 @@ def check(ctx, module, cfg, graphfile, env=None, workers=8, heap="12g", timeout=
         for k, (sig, _) in enumerate(found):
             e["VF_MUTE%d" % (k + 1)] = sig
         res = tlc.run(module, cfg, env=e, workers=workers, heap=heap, timeout=timeout,
-                      tag=(tag or "graph") + "-r%d" % rnd)
+                      tag=(tag or "graph") + "-%d-r%d" % (os.getpid(), rnd))
         stats["runs"] += 1
         stats["wall_s"] += res["wall_s"]
         stats["generated"] = max(stats["generated"], res["generated"])
